@@ -195,6 +195,8 @@ class ReqState:
 
     def left(self):
         """what is still in the request's deques"""
+        if getattr(self, 'frozen_left', None) is not None:
+            return self.frozen_left
         r = self.request
         if r is None:
             return [0, 0]
@@ -437,10 +439,51 @@ def sub_new_response(event):
 _APPS = {}
 
 
-def make_app(xv):
-    if xv in _APPS:
-        return _APPS[xv]
+def simple_policy(environ, router):
+    """the example of the IExecutionPolicy docstring (what escapes the pipeline is rendered once more by the policy);
+    the observations of that second rendering go to a record of their own"""
+    with router.request_context(environ) as request:
+        try:
+            return router.invoke_request(request)
+        except Exception as exc:
+            main = environ['c13']
+            main.escaped = classify_exc(exc)          # what came out of the pipeline, before the policy renders it
+            main.frozen_left = main.left()
+            post = ReqState(main.spec, main.base)
+            post.xv = main.xv
+            environ['c13.post'] = post
+            environ['c13'] = post
+            try:
+                return request.invoke_exception_view(reraise=True)
+            finally:
+                post.depth_after = len(manager.stack)
+
+
+def retry_policy(environ, router):
+    """pyramid_retry style: a fresh request per attempt over the same environ; a marked (plain) exception is retried
+    while attempts are left"""
+    states = environ['c13.states']
+    for i, st in enumerate(states):
+        environ['c13'] = st
+        environ['c13.attempts'] = i + 1
+        with router.request_context(environ) as request:
+            try:
+                return router.invoke_request(request)
+            except Boom:
+                if i + 1 == len(states):
+                    raise
+
+
+POLICIES = {'simple': simple_policy, 'retry': retry_policy}
+
+
+def make_app(xv, policy='default'):
+    key = xv if policy == 'default' else (xv, policy)
+    if key in _APPS:
+        return _APPS[key]
     config = Configurator(root_factory=root_factory)
+    if policy != 'default':
+        config.set_execution_policy(POLICIES[policy])
     config.set_security_policy(Policy())
     config.add_tween(MOD + '.tween_over_factory', over=EXCVIEW)
     config.add_tween(MOD + '.probe_tween_factory', over=[MOD + '.tween_over_factory', EXCVIEW])
@@ -473,7 +516,7 @@ def make_app(xv):
         st_of(request).chain(True)
         return r
     app.orig_handle_request = probed
-    _APPS[xv] = app
+    _APPS[key] = app
     return app
 
 
@@ -506,6 +549,113 @@ def run_pipeline(case):
         del manager.stack[:]
     LAST_SK[0] = st.sk_tree()
     return st.tree()
+
+
+def run_policy(case):
+    """one WSGI call through the real Router.__call__ of an application with a CUSTOM execution policy; returns
+    {'attempts': [tree per attempt], 'post': tree of the policy's own exception-view call | None, 'out', 'depth'}"""
+    app = make_app(bool(case.get('xv')), case['policy'])
+    del manager.stack[:]
+    for _ in range(int(case.get('base', 0))):
+        manager.push({'request': None, 'registry': app.registry})
+    base = len(manager.stack)
+    states = []
+    for spec in case['reqs']:
+        st = ReqState(spec, base)
+        st.xv = bool(case.get('xv'))
+        states.append(st)
+    environ = Request.blank('/r' if case['reqs'][0].get('route') else '/').environ
+    environ['c13'] = states[0]
+    environ['c13.states'] = states
+    out = None
+    try:
+        try:
+            list(app(environ, lambda s, h, e=None: None))
+            out = 'resp'
+        except Exception as e:
+            out = classify_exc(e)
+    finally:
+        depth = len(manager.stack)
+        del manager.stack[:]
+    n = environ.get('c13.attempts', 1)
+    post = environ.get('c13.post')
+    trees = []
+    for i, st in enumerate(states[:n]):
+        # an attempt's own outcome: the last one has the call's (before the policy's post-processing), earlier ones were retried
+        st.depth_after = depth
+        st.out = 'plain' if i + 1 < n else (getattr(st, 'escaped', None) or out)
+        trees.append(st.tree())
+    ptree = None
+    if post is not None:
+        post.out = out
+        post.depth_after = depth
+        ptree = post.tree()
+        # what the policy's exception view registered stays in the deques (finish_request is over)
+        ptree['left'] = [sum(1 for e in post.own if e[0] == 'reg' and e[1] == k) for k in ('resp', 'fin')]
+    return {'attempts': trees, 'post': ptree, 'out': out, 'depth': depth}
+
+
+def policy_wf(case):
+    try:
+        if case.get('policy') not in POLICIES or not isinstance(case.get('reqs'), list):
+            return False
+        n = len(case['reqs'])
+        if not ((case['policy'] == 'simple' and n == 1) or (case['policy'] == 'retry' and 1 <= n <= 3)):
+            return False
+        return all(pipeline_wf({'base': case.get('base', 0), 'req': r}) for r in case['reqs'])
+    except Exception:
+        return False
+
+
+def policy_model_line(case):
+    return {'op': 'policy', 'policy': case['policy'], 'xv': bool(case.get('xv')), 'base': int(case.get('base', 0)),
+            # every attempt is made over the same environ: the path (route or traversal) is that of the first
+            'reqs': [dict(norm_req(r), route=bool(case['reqs'][0].get('route'))) for r in case['reqs']]}
+
+
+def check_policy(case, obs):
+    """the property under a custom execution policy: every attempt is a request of its own — finished callbacks of
+    every attempt run once, in order, after everything else of that attempt; stack balanced; current request identity"""
+    bad = []
+    base = int(case.get('base', 0))
+    for i, (spec, node) in enumerate(zip(case['reqs'], obs['attempts'])):
+        bad += check_node(spec, node, base, 'attempt%d' % i)
+    if obs['depth'] != base:
+        bad.append('policy %s: stack depth %s after the WSGI call, %s before' % (case['policy'], obs['depth'], base))
+    if obs.get('post'):
+        for e in obs['post']['own']:
+            if e[0] == 'hook' and e[1] == 'excView' and not e[2]:
+                bad.append('policy %s: inside the exception view the policy renders, the current request is not the request' % case['policy'])
+    return bad
+
+
+def policy_cases():
+    """the execution-policy dimension of the cube: docstring policy and retrying policy x exception view x where the
+    attempt fails (nowhere, view, renderer, NewResponse, a response callback, tween over) x kind, callbacks registered
+    at six stages and by callbacks"""
+    out = []
+    regs = [list(r) for r in STD_REGS] + [['cb:0', 'fin', None], ['cb:2', 'resp', None]]
+    injs = [[]] + [[[p, k]] for p in ('viewBody', 'renderer', 'newResponse', 'tweenOverOut', 'excView') for k in ('plain', 'http')]
+    for xv in (False, True):
+        for inj in injs:
+            req = {'tw': True, 'route': False, 'faults': inj, 'regs': [list(r) for r in regs], 'xx': None, 'xo': None, 'subs': []}
+            out.append({'kind': 'policy', 'policy': 'simple', 'xv': xv, 'base': 0, 'reqs': [req]})
+            ok = {'tw': True, 'route': True, 'faults': [], 'regs': [list(r) for r in regs], 'xx': None, 'xo': None,
+                  'subs': [{'tw': False, 'route': False, 'faults': [], 'regs': [['viewBody', 'fin', None]], 'xx': None, 'xo': None, 'subs': []}]}
+            out.append({'kind': 'policy', 'policy': 'retry', 'xv': xv, 'base': 1, 'reqs': [req, dict(req), ok]})
+            out.append({'kind': 'policy', 'policy': 'retry', 'xv': xv, 'base': 0, 'reqs': [req]})
+        cbf = {'tw': True, 'route': False, 'faults': [], 'regs': [['viewBody', 'resp', 'plain'], ['viewBody', 'fin', None], ['cb:1', 'fin', None]],
+               'xx': None, 'xo': None, 'subs': []}
+        out.append({'kind': 'policy', 'policy': 'simple', 'xv': xv, 'base': 0, 'reqs': [cbf]})
+        out.append({'kind': 'policy', 'policy': 'retry', 'xv': xv, 'base': 0, 'reqs': [cbf, cbf]})
+    return out
+
+
+def gen_policy(rng):
+    pol = rng.choice(['simple', 'retry'])
+    n = 1 if pol == 'simple' else rng.choice([1, 2, 3])
+    return {'kind': 'policy', 'policy': pol, 'xv': rng.random() < 0.6, 'base': rng.choice([0, 0, 1]),
+            'reqs': [gen_req(rng, rng.choice([0, 0, 1]), top=True) for _ in range(n)]}
 
 
 # ---- the property, stated on the observation tree (independent of the Lean build) ---------------------------
@@ -1186,6 +1336,8 @@ def nontrivial(case, tree):
     """a scheduled failure was actually reached somewhere in the tree"""
     if case.get('kind') == 'scope':
         return bool(case.get('fail'))
+    if case.get('kind') == 'policy':
+        return any(nontrivial({'kind': 'pipeline', 'req': r}, n) for r, n in zip(case['reqs'], tree['attempts']))
     for spec, node, _top, _d in tree_nodes(case['req'], tree):
         for e in node['own']:
             if e[0] == 'hook' and fault_of(spec, e[1]) is not None:
@@ -1269,6 +1421,8 @@ def eval_cases(ctx, cases, use_model=True):
     for c in cases:
         if c.get('kind') == 'scope':
             obs.append(run_scope(c) if scope_wf(c) else None); sks.append(None)
+        elif c.get('kind') == 'policy':
+            obs.append(run_policy(c) if policy_wf(c) else None); sks.append(None)
         else:
             if pipeline_wf(c):
                 obs.append(run_pipeline(c)); sks.append(LAST_SK[0])
@@ -1288,13 +1442,15 @@ def eval_cases(ctx, cases, use_model=True):
     if have_model:
         try:
             ensure_baselines(sites, sorted({c['scenario'] for c, o in zip(cases, obs) if o is not None and c.get('kind') == 'scope'}),
-                             any(o is not None and c.get('kind') != 'scope' for c, o in zip(cases, obs)))
+                             any(o is not None and c.get('kind') not in ('scope', 'policy') for c, o in zip(cases, obs)))
         except Exception as e:
             mism.append({'kind': 'comparison-failed', 'case': None, 'impl': None, 'model': {'error': 'baseline: %s: %s' % (type(e).__name__, e)}})
         for i, (c, o) in enumerate(zip(cases, obs)):
             if o is None:
                 continue
             try:
+                if c.get('kind') == 'policy':
+                    continue        # judged by the pipeline model and the oracle (no skeleton entry for custom policies)
                 if c.get('kind') == 'scope':
                     if SCOPES[c['scenario']][0] is None:
                         continue
@@ -1317,7 +1473,9 @@ def eval_cases(ctx, cases, use_model=True):
                 _TERMS[nm] = r.get('term')
                 _RECOG[nm] = bool(r.get('recognised', True))
         for i, (c, o) in enumerate(zip(cases, obs)):
-            if have_model and o is not None and c.get('kind') != 'scope':
+            if have_model and o is not None and c.get('kind') == 'policy':
+                lines.append(policy_model_line(c)); owner.append((i, 'policy', None))
+            elif have_model and o is not None and c.get('kind') != 'scope':
                 lines.append(model_line(c)); owner.append((i, 'tree', None))
         for job in jobs:
             i, entry, group, d0, v, raised, d_after, shown = job
@@ -1364,6 +1522,9 @@ def eval_cases(ctx, cases, use_model=True):
             if what == 'tree':
                 if mo.get('tree') != o:
                     mism.append({'case': c, 'impl': o, 'model': mo}); bad_case.add(i)
+            elif what == 'policy':
+                if mo != o:
+                    mism.append({'case': c, 'impl': o, 'model': mo}); bad_case.add(i)
             else:
                 _i, entry, group, d0, v, raised, d_after, shown = extra
                 d = exec_compare(mo, v, _HOOKED.get(group, set()), raised, d_after)
@@ -1381,6 +1542,11 @@ def eval_cases(ctx, cases, use_model=True):
             v = scope_check(c, o)
             if v:
                 viol.append(v)
+        elif c.get('kind') == 'policy':
+            bad = check_policy(c, o)
+            if bad:
+                viol.append({'case': c, 'impl': o, 'expected': 'under a custom execution policy every attempt is a request of its own: finished callbacks once in order last, stack balanced, current request = self',
+                             'detail': '; '.join(bad[:4])})
         else:
             bad = check_node(c['req'], o, int(c.get('base', 0)))
             if bad:
@@ -1391,8 +1557,10 @@ def eval_cases(ctx, cases, use_model=True):
 
 def violates(case):
     try:
-        if case.get('kind') not in ('scope', 'pipeline'):
+        if case.get('kind') not in ('scope', 'pipeline', 'policy'):
             return False
+        if case.get('kind') == 'policy':
+            return policy_wf(case) and bool(check_policy(case, run_policy(case)))
         if case.get('kind') == 'scope':
             if not scope_wf(case):
                 return False
@@ -1418,6 +1586,9 @@ def shrink_violations(viol, limit=3):
             if small.get('kind') == 'scope':
                 o = run_scope(small)
                 v2 = scope_check(small, o)
+            elif small.get('kind') == 'policy':
+                o = run_policy(small)
+                v2 = {'case': small, 'impl': o, 'expected': v['expected'], 'detail': '; '.join(check_policy(small, o)[:4])}
             else:
                 o = run_pipeline(small)
                 v2 = {'case': small, 'impl': o, 'expected': v['expected'],
@@ -1437,6 +1608,9 @@ def account(cases, obs, dist, seen, nontriv):
         if c.get('kind') == 'scope':
             vfutil.bump(dist['kinds'], 'scope')
             vfutil.bump(dist['scope_scenarios'], c['scenario'])
+        elif c.get('kind') == 'policy':
+            vfutil.bump(dist['kinds'], 'policy')
+            vfutil.bump(dist.setdefault('policies', {}), '%s:%d attempts:%s' % (c['policy'], len(o['attempts']), o['out']))
         else:
             vfutil.bump(dist['kinds'], 'pipeline')
             vfutil.bump(dist['top_outcome'], o['out'])
@@ -1482,6 +1656,7 @@ def run(ctx):
     cases += all_scope_cases()
     singles = single_fault_cases()
     cases += singles
+    cases += policy_cases()
     n = ctx.n(12000, 150000)
     fixed = len(cases)
     seen, nontriv = set(), set()
@@ -1501,7 +1676,7 @@ def run(ctx):
             break
         k = min(todo, 4000)
         todo -= k
-        chunk = [gen_pipeline(rng) for _ in range(k)]
+        chunk = [gen_policy(rng) if rng.random() < 0.12 else gen_pipeline(rng) for _ in range(k)]
     viol = shrink_violations(viol)
     notes = []
     # the excluded point of finished_once_in_order_last (a finished callback fails: outside the statement's fault list)
@@ -1539,6 +1714,10 @@ def search(ctx):
             if violates(c):
                 if c.get('kind') == 'scope':
                     viol.append(scope_check(c, run_scope(c)))
+                elif c.get('kind') == 'policy':
+                    o = run_policy(c)
+                    viol.append({'case': c, 'impl': o, 'expected': 'C13 under a custom execution policy (see harness oracle)',
+                                 'detail': '; '.join(check_policy(c, o)[:4])})
                 else:
                     o = run_pipeline(c)
                     viol.append({'case': c, 'impl': o, 'expected': 'C13 (see harness oracle)',
@@ -1546,7 +1725,7 @@ def search(ctx):
                 if len(viol) >= 5:
                     return True
         return False
-    done = feed([c for _, c in ctx.corpus()]) or feed(all_scope_cases()) or feed(single_fault_cases())
+    done = feed([c for _, c in ctx.corpus()]) or feed(all_scope_cases()) or feed(policy_cases()) or feed(single_fault_cases())
     exhaustive = not done
     if not done:
         pts = [(p, k) for p in POINTS for k in (KINDS if p in SOFT_POINTS else ['plain', 'http'])]
@@ -1564,7 +1743,7 @@ def search(ctx):
             if ctx.time_left() < 60:
                 exhaustive = False
                 break
-            if feed([gen_pipeline(ctx.rng)]):
+            if feed([gen_policy(ctx.rng) if ctx.rng.random() < 0.12 else gen_pipeline(ctx.rng)]):
                 break
     return {'violations': shrink_violations(viol), 'searched': n, 'exhaustive': exhaustive}
 
